@@ -195,7 +195,11 @@ class StateTomography:
                 operations.
 
         """
-        circuit = self.base_circuit.copy()
+        # The base circuit is added to a new circuit so that any heralded modes
+        # it has become internal, meaning the measurement operators below are
+        # applied to the visible modes only
+        circuit = Circuit(self.base_circuit.input_modes)
+        circuit.add(self.base_circuit)
         # Check number of circuits is correct
         if len(measurement_operators) != self.n_qubits:
             msg = (
